@@ -258,6 +258,30 @@ class UView(eqx.Module):
 
 
 @onnx_function
+class Passthrough(nnx.Module):
+    """A decorated module whose body hands its argument straight back (e.g. a disabled adapter)."""
+
+    def __init__(self, d: int, seed: int):
+        self.enabled = seed % 2 == 0
+        self.w = nnx.Param(jnp.asarray(0.5 + 0.25 * W((d,), seed)))
+
+    def __call__(self, x):
+        return x * self.w.value if self.enabled else x
+
+
+@onnx_function
+class TMean(nnx.Module):
+    """transpose -> mean(keepdims) -> transpose inside a function body (an optimizer rewrite pattern)."""
+
+    def __init__(self, d: int, seed: int):
+        self.w = nnx.Param(jnp.asarray(0.5 + 0.25 * W((d,), seed)))
+
+    def __call__(self, x):
+        m = jnp.transpose(jnp.mean(jnp.transpose(x, (1, 0)), axis=0, keepdims=True), (1, 0))
+        return x * self.w.value + m
+
+
+@onnx_function
 class BaseAffine(nnx.Module):
     def __init__(self, d: int, seed: int):
         self.w = nnx.Param(jnp.asarray(0.5 + 0.25 * W((d,), seed)))
